@@ -106,11 +106,11 @@ CLAIMED = {
         technique="regenerated source facts pinned by Lean theorems + differential runs (processes, locations, histories)",
         design="7/C14"),
     "C15": dict(
-        text="Std.Lib is a loop-for-loop Lean rendering of std/strings.tsh, Std.Go a declarative specification of Go's strings functions. Theorems (Props/C15.lean): Lib = Go for all "
-             "arguments for HasPrefix, HasSuffix, Index, Contains, Join, Repeat (count>=0), CutPrefix, CutSuffix, TrimPrefix, TrimSuffix, Cut. Count, Split, Replace(All), Trim* are "
-             "decided by the exhaustive small-scope four-way comparison (rendering, specification, compiled+executed library, Go's package) only.",
-        note=TB + "the rendering is tied to the library and the specification to Go's package by running all four on the same tuples in every run.",
-        technique="Lean 4 equivalence proofs rendering = specification + four-way differential on exhaustive small tuples",
+        text="Std.Lib is a loop-for-loop Lean rendering of std/strings.tsh, Std.Go a declarative specification of Go's strings functions. Theorems (Props/C15.lean): Lib.f = Go.f for "
+             "ALL arguments for all 19 functions (Repeat for count>=0; Go panics below) - empty strings, empty separators, overlapping matches, zero and negative counts included. "
+             "Rendering vs compiled+executed library and specification vs Go's package: exhaustive small-scope four-way comparison in every run.",
+        note=TB + "the rendering is tied to the library source and the specification to Go's package by running all four on the same tuples in every run (bounded); the equivalence is proved.",
+        technique="Lean 4 equivalence proofs rendering = specification for all 19 functions + four-way differential on exhaustive small tuples",
         design="7/C15"),
     "C16": dict(
         text="Theorems (Props/C16.lean): for every well-formed AST the bash script follows the block grammar (non-empty bodies, own closers), nesting depth returns to 0, bodies "
